@@ -38,6 +38,8 @@ def _alarm(signum, frame):
 
 
 def _site(e):
+    if isinstance(e, RecursionError) and classify_exception(e) is None:
+        return "RecursionError@amaranth-internal"      # recursion depth exceeded while Amaranth walks the design
     c = classify_exception(e)
     if c is not None:
         return c[0][len("crash/"):]
@@ -146,9 +148,48 @@ def exhaustive(tier):
     return parts
 
 
+def _check_many(spec, stats):
+    """Scale family: a multiplexer over n one-word registers (all sharing one shadow chunk when the
+    sharing limit is None), or one register of n words: must elaborate (twice, to RTLIL once)."""
+    from amaranth.hdl import Fragment
+    from amaranth_soc import csr
+    from amaranth_soc.memory import MemoryMap
+    from vlib.gens import MockReg
+    p = spec["p"]
+    n, dw = p["n"], p["dw"]
+    mm = MemoryMap(addr_width=max(1, (n - 1).bit_length()), data_width=dw)
+    if p["shape"] == "many":
+        regs = [MockReg(dw, p["acc"]) for _ in range(n)]
+        for i, r in enumerate(regs):
+            mm.add_resource(r, name=(f"r{i}",), size=1)
+    else:
+        regs = [MockReg(dw * n, p["acc"])]
+        mm.add_resource(regs[0], name=("wide",), size=n)
+    mux = csr.Multiplexer(mm, shadow_overlaps=p["ov"])
+    ports = components.flat_signals(mux)
+    for r in regs:
+        ports += components.flat_signals(r)
+    for k in range(2):
+        try:
+            Fragment.get(mux, None)
+            if k == 0:
+                rtlil.convert(mux, ports=ports)
+        except RecursionError as e:
+            raise Violation(f"C19/elab/{_site(e)}", f"multiplexer over {p['shape']} x{n} ({p['acc']}, {dw}-bit bus, "
+                            f"shadow_overlaps={p['ov']}): RecursionError in elaboration #{k + 1}")
+        except Exception as e:
+            if classify_exception(e) is None:
+                raise
+            raise Violation(f"C19/elab/{_site(e)}", f"multiplexer over {p['shape']} x{n}: {type(e).__name__}: {str(e)[:200]}")
+    stats.label("scale:" + p["shape"])
+    stats.nontrivial = True
+
+
 def _check(spec, stats, cls):
     if cls == "mux_packed":
         return _check_packed(spec, stats)
+    if cls == "mux_many":
+        return _check_many(spec, stats)
     try:
         built = components.build(spec)
     except Exception as e:
@@ -208,4 +249,9 @@ def _check(spec, stats, cls):
 
 
 def pinned():
-    return []
+    # scale: several hundred registers behind one multiplexer / one register of several hundred words
+    out = []
+    for shape, n, acc, ov in (("many", 300, "rw", None), ("many", 700, "rw", None), ("many", 700, "r", 0),
+                              ("wide", 300, "w", None), ("wide", 300, "rw", None)):
+        out.append((f"scale-{shape}-{n}-{acc}-ov{ov}", {"cls": "mux_many", "p": {"shape": shape, "n": n, "dw": 8, "acc": acc, "ov": ov}}))
+    return out
